@@ -95,6 +95,14 @@ func (e *Eval) Prepare(flags ...[]byte) error {
 	//
 	// Default to optimizing the bytecode.
 	//
+	//
+	// Preparing again starts from scratch: nothing a previous call
+	// to Prepare compiled is kept.
+	//
+	e.instructions = nil
+	e.constants = nil
+	e.functions = make(map[string]environment.UserFunction)
+
 	optimize := true
 
 	//
